@@ -155,6 +155,61 @@ std::string mutate(std::string const &valid, Rng &r, bool is_cv, int natoms, std
   label = "unchanged"; return valid;
 }
 
+// ---- definitions over the whole component catalogue with degenerate ingredients (groups made of a dummy atom, a single atom,
+// nothing, or the atoms of another group; zero axes; reference sets of the wrong length; cut-offs and exponents out of range) ----
+struct CompSchema { const char *name; std::vector<const char *> groups; int extras; int value_dim; };
+// extras bit mask: 1 refPositions, 2 axis, 4 vector, 8 coordination parameters, 16 hBond atoms
+const CompSchema k_components[] = {
+    {"distance", {"group1", "group2"}, 0, 1}, {"distanceVec", {"group1", "group2"}, 0, 3}, {"distanceDir", {"group1", "group2"}, 0, 3},
+    {"distanceInv", {"group1", "group2"}, 0, 1}, {"distancePairs", {"group1", "group2"}, 0, 0}, {"distanceZ", {"main", "ref", "ref2"}, 2, 1},
+    {"distanceXY", {"main", "ref", "ref2"}, 2, 1}, {"angle", {"group1", "group2", "group3"}, 0, 1}, {"dipoleAngle", {"group1", "group2", "group3"}, 0, 1},
+    {"dihedral", {"group1", "group2", "group3", "group4"}, 0, 1}, {"coordNum", {"group1", "group2"}, 8, 1}, {"selfCoordNum", {"group1"}, 8, 1},
+    {"groupCoord", {"group1", "group2"}, 8, 1}, {"hBond", {}, 8 | 16, 1}, {"rmsd", {"atoms"}, 1, 1}, {"gyration", {"atoms"}, 0, 1}, {"inertia", {"atoms"}, 0, 1},
+    {"inertiaZ", {"atoms"}, 2, 1}, {"cartesian", {"atoms"}, 0, 0}, {"dipoleMagnitude", {"atoms"}, 0, 1}, {"eigenvector", {"atoms"}, 1 | 4, 1},
+    {"orientation", {"atoms"}, 1, 4}, {"orientationAngle", {"atoms"}, 1, 1}, {"orientationProj", {"atoms"}, 1, 1}, {"tilt", {"atoms"}, 1 | 2, 1},
+    {"spinAngle", {"atoms"}, 1 | 2, 1}, {"polarTheta", {"atoms"}, 0, 1}, {"polarPhi", {"atoms"}, 0, 1}, {"euler_phi", {"atoms"}, 1, 1}, {"euler_theta", {"atoms"}, 1, 1}, {"euler_psi", {"atoms"}, 1, 1}};
+
+std::string exotic_cv(Rng &r, int natoms, std::string const &name, std::string &label, int &value_dim) {
+  CompSchema const &cs = k_components[r.below(sizeof k_components / sizeof *k_components)];
+  value_dim = cs.value_dim;
+  std::string deg;
+  auto atoms_list = [&](int n) { std::set<int> a; while ((int)a.size() < n) a.insert(1 + (int)r.below((uint64_t)natoms)); std::string t; for (int x : a) t += " " + std::to_string(x); return t; };
+  auto v3 = [&](bool zero) { return zero ? std::string("(0, 0, 0)") : "(" + num(std::round(r.uniform(-2, 2) * 100) / 100) + ", " + num(std::round(r.uniform(-2, 2) * 100) / 100) + ", " + num(std::round(r.uniform(0.1, 2) * 100) / 100) + ")"; };
+  std::string body, prev_atoms; size_t natoms_main = 0;
+  for (size_t g = 0; g < cs.groups.size(); g++) {
+    if (std::string(cs.groups[g]) == "ref2" && !r.chance(0.3)) continue;
+    double u = r.unit(); std::string inner;
+    if (u < 0.5 || (g == 0 && u < 0.6)) { int n = (int)r.range(1, 5); std::string a = atoms_list(n); inner = "atomNumbers" + a; prev_atoms = a; if (g == 0) natoms_main = (size_t)n; }
+    else if (u < 0.7) { inner = "dummyAtom " + v3(r.chance(0.3)); deg += std::string(deg.empty() ? "" : "+") + "dummy"; }
+    else if (u < 0.8 && !prev_atoms.empty()) { inner = "atomNumbers" + prev_atoms; deg += std::string(deg.empty() ? "" : "+") + "same_atoms"; }
+    else if (u < 0.88) { inner = ""; deg += std::string(deg.empty() ? "" : "+") + "empty"; }
+    else if (u < 0.94) { inner = "atomNumbersRange " + std::to_string(r.range(1, natoms)) + "-" + std::to_string(r.range(1, natoms + 2)); deg += std::string(deg.empty() ? "" : "+") + "range"; if (g == 0) natoms_main = 2; }
+    else { inner = "atomNumbers" + atoms_list((int)r.range(1, 3)) + " " + (r.chance(0.5) ? "centerToReference on" : "rotateToReference on"); deg += std::string(deg.empty() ? "" : "+") + "fit_without_reference"; }
+    body += std::string("    ") + cs.groups[g] + " { " + inner + " }\n";
+  }
+  if (cs.extras & 16) { body += "    acceptor " + std::to_string(r.range(0, natoms + 1)) + "\n    donor " + std::to_string(r.range(0, natoms + 1)) + "\n"; }
+  if (cs.extras & 1) {
+    long n = (long)natoms_main + (r.chance(0.25) ? (r.chance(0.5) ? 1 : -1) : 0); if (n < 0) n = 0;
+    bool allzero = r.chance(0.15); if (allzero) deg += std::string(deg.empty() ? "" : "+") + "reference_all_zero"; if (n != (long)natoms_main) deg += std::string(deg.empty() ? "" : "+") + "reference_count";
+    body += "    refPositions"; for (long i = 0; i < n; i++) body += " " + v3(allzero); body += "\n";
+    if (cs.extras & 4) { body += "    vector"; long nv = r.chance(0.2) ? n + 1 : n; bool vz = r.chance(0.2); if (vz) deg += std::string(deg.empty() ? "" : "+") + "vector_zero"; for (long i = 0; i < nv; i++) body += " " + v3(vz); body += "\n"; if (r.chance(0.3)) body += "    differenceVector on\n"; if (r.chance(0.3)) body += "    normalizeVector on\n"; }
+  }
+  if ((cs.extras & 2) && r.chance(0.6)) { bool z = r.chance(0.4); if (z) deg += std::string(deg.empty() ? "" : "+") + "axis_zero"; body += "    axis " + v3(z) + "\n"; }
+  if (cs.extras & 8) {
+    static const char *cut[] = {"4.0", "0", "-1", "1e300", "1e-300"}; static const char *ex[][2] = {{"6", "12"}, {"0", "0"}, {"6", "6"}, {"3", "4"}, {"-2", "4"}, {"12", "6"}, {"1000000", "2000000"}};
+    size_t c = r.chance(0.6) ? 0 : r.below(5), x = r.chance(0.6) ? 0 : r.below(7);
+    if (c) deg += std::string(deg.empty() ? "" : "+") + "cutoff=" + cut[c]; if (x) deg += std::string(deg.empty() ? "" : "+") + "exponents=" + ex[x][0] + "/" + ex[x][1];
+    body += std::string("    cutoff ") + cut[c] + "\n    expNumer " + ex[x][0] + "\n    expDenom " + ex[x][1] + "\n";
+    if (std::string(cs.name) == "coordNum" && r.chance(0.4)) { body += "    tolerance " + std::string(r.chance(0.7) ? "0.001" : "-1") + "\n    pairListFrequency " + std::to_string(r.chance(0.8) ? r.range(1, 5) : 0) + "\n"; if (r.chance(0.3)) body += "    group2CenterOnly on\n"; }
+  }
+  std::string top = "colvar {\n  name " + name + "\n  width 0.5\n";
+  if (r.chance(0.2)) top += "  outputVelocity on\n";
+  if (r.chance(0.15)) top += "  outputTotalForce on\n";
+  if (r.chance(0.15)) top += "  outputAppliedForce on\n";
+  label = std::string("exotic:") + cs.name + (deg.empty() ? "" : ":" + deg);
+  return top + "  " + cs.name + " {\n" + body + "  }\n}\n";
+}
+
 J gen(uint64_t seed, bool thorough) {
   Rng r(seed, 10);
   EngineCfg ec;
@@ -175,6 +230,7 @@ J gen(uint64_t seed, bool thorough) {
   std::vector<LiveCv> cvs;
   int ncv = 0, nb = 0, nbad = 0;
   std::vector<std::string> names;   // names of the valid biases
+  std::vector<std::pair<std::string, int>> exotic;   // catalogue-wide definitions requested so far: name, dimension of the value
   static const char *kinds[] = {"distance", "distanceZ", "dihedral", "angle", "distanceXY"};
   std::string sig;
   auto add_cv = [&]() {
@@ -245,14 +301,26 @@ J gen(uint64_t seed, bool thorough) {
       double w = r.unit();
       if (w < 0.4) {
         std::string n = "x" + std::to_string(nbad++);
-        CvSpec s = make_cv(r, ec.natoms, kinds[r.below(5)], n);
-        place_grid(s, m, T, r, (int)r.range(4, 10), 1.4);
         op["op"] = "bad"; op["name"] = n; op["what"] = "cv";
-        op["config"] = mutate(s.config(), r, true, ec.natoms, label);
+        if (r.chance(0.4)) {
+          int dim = 1; op["config"] = exotic_cv(r, ec.natoms, n, label, dim);
+          exotic.emplace_back(n, dim);
+        } else {
+          CvSpec s = make_cv(r, ec.natoms, kinds[r.below(5)], n);
+          place_grid(s, m, T, r, (int)r.range(4, 10), 1.4);
+          op["config"] = mutate(s.config(), r, true, ec.natoms, label);
+        }
       } else if (w < 0.92) {
         std::string t, n; std::string cfg = valid_bias(t, n);
         op["op"] = "bad"; op["name"] = n; op["what"] = "bias"; op["tmpl"] = t;
-        if (r.chance(0.08) && !names.empty()) {
+        if (!exotic.empty() && r.chance(0.2)) {
+          // a restraint on one of the catalogue-wide definitions above (which may or may not have been accepted), so that forces flow through it
+          auto const &x = exotic[r.below(exotic.size())];
+          std::string c = x.second == 3 ? "(1, 0, 0)" : x.second == 4 ? "(1, 0, 0, 0)" : num(std::round(r.uniform(0, 5) * 10) / 10);
+          if (r.chance(0.15)) c = "1.0";
+          op["tmpl"] = "harm_fixed";
+          op["config"] = "harmonic {\n  name " + n + "\n  colvars " + x.first + "\n  centers " + c + "\n  forceConstant " + num(std::round(r.uniform(0.1, 5) * 10) / 10) + "\n}\n"; label = "exotic:restraint";
+        } else if (r.chance(0.08) && !names.empty()) {
           // a name that is already taken
           std::string taken = names[r.below(names.size())];
           size_t q = cfg.find("name " + n);
@@ -395,6 +463,17 @@ RunResult run(J const &plan) {
   if (!res.violation && !test.deps_err.empty()) res.fail("dependency_graph", test.deps_sig, test.deps_err);
   if (!res.violation && test.silent) res.fail("reporting", "refused_without_error", "definition " + test.silent_what + " created no object and raised no error");
   if (!res.violation && test.snaps.size() != twin.snaps.size()) res.fail("rollback", "step_count", std::to_string(test.snaps.size()) + " vs " + std::to_string(twin.snaps.size()));
+  // a variable without a permanent restraint of its own (the catalogue-wide and mutated definitions, named x...) goes to sleep when
+  // the only bias requested on it is refused (recorded finding C13-VARIABLE-SLEEPS-AFTER-LAST-BIAS): its value is not compared
+  std::set<std::string> may_sleep;
+  for (size_t i = 0; i < ops.size(); i++) {
+    if (ops.a[i].at("op").as_str() != "bad" || ops.a[i].at("what").as_str() != "bias" || !test.refused[i]) continue;
+    std::string cfg = ops.a[i].at("config").as_str(); size_t p = cfg.find("colvars ");
+    if (p == std::string::npos) continue;
+    std::istringstream is(cfg.substr(p + 8, cfg.find('\n', p) - p - 8)); std::string n;
+    while (is >> n) if (n[0] == 'x') may_sleep.insert(n);
+  }
+  if (!may_sleep.empty()) res.counters["probe.runs_with_variable_left_without_bias_by_refusal"]++;
   long compared = 0;
   size_t at_i = 0;
   for (size_t i = 0; i < test.snaps.size() && !res.violation; i++) {
@@ -413,6 +492,7 @@ RunResult run(J const &plan) {
     for (auto const &kv : b.cv) {
       auto it = a.cv.find(kv.first);
       if (it == a.cv.end()) { res.fail("rollback", "object_sets_differ", at + ": variable " + kv.first + " missing"); break; }
+      if (may_sleep.count(kv.first)) continue;
       if (!same_vec(it->second, kv.second)) { res.fail("rollback", "value", at + ": variable " + kv.first + " = " + fmt_double(it->second.empty() ? 0 : it->second[0]) + ", twin " + fmt_double(kv.second.empty() ? 0 : kv.second[0])); break; }
       compared++;
     }
